@@ -691,6 +691,9 @@ func runQueue(res *vlib.Result, root *vlib.Rand) {
 	n := vlib.Scale(400, 2500)
 	for i := 0; i < n; i++ {
 		runQueueCase(res, root.SplitN("case", i), fmt.Sprintf("queue/%d", i), i%4 == 0)
+		if i%50 == 49 {
+			res.Save()
+		}
 	}
 	for i := 0; i < vlib.Scale(40, 400); i++ {
 		pendingReadAtClose(res, i)
